@@ -1,6 +1,8 @@
 package loader
 
 import (
+	"sort"
+
 	"github.com/jsightapi/jsight-schema-core/errs"
 	"github.com/jsightapi/jsight-schema-core/lexeme"
 	"github.com/jsightapi/jsight-schema-core/notations/jschema/ischema"
@@ -35,7 +37,13 @@ func CompileAllOf(rootSchema *ischema.ISchema) {
 	c.processSchema(rootSchema)
 
 	// In case allow is used only in types (not in the root schema).
+	// In name order: the first type that fails decides which error is reported.
+	names := make([]string, 0, len(rootSchema.TypesList()))
 	for name := range rootSchema.TypesList() {
+		names = append(names, name)
+	}
+	sort.Strings(names)
+	for _, name := range names {
 		c.processType(name)
 	}
 
